@@ -18,7 +18,7 @@ EXPLANATION = (
     "is a write-all loop that drops exactly the n bytes os.write reported; (D4) the escape position is the FIRST "
     "occurrence in the read (find, not rfind), the prefix data[:i] is delivered, then the loop is left without sending "
     "the rest; no escape handling when escape_character is None; (D5) both directions are logged (shared with C11-D5); "
-    "(D6) the loop ends on EIO / empty read / dead child and re-raises other OSErrors. NOT decided: terminal "
+    "(D6) the loop ends on EIO / empty read / dead child and re-raises other OSErrors; (D7) the per-chunk decode used to log typed bytes has a total error policy (it runs before the bytes are forwarded, on chunks cut at arbitrary positions). NOT decided: terminal "
     "semantics, byte exactness end to end.")
 TRUSTED = ["tty.tcgetattr/tcsetattr/setraw", "bytes.find returns the leftmost index", "sa/ engine"]
 ASSUMPTIONS = []
